@@ -44,6 +44,7 @@ type Profile struct {
 	MinOps, MaxOps                                                      int
 	ManyRows                                                            bool
 	Big                                                                 int // rows of an extra large table (several response messages)
+	ExtraIDs                                                            []string
 }
 
 var Profiles = map[string]Profile{
@@ -59,12 +60,15 @@ var Profiles = map[string]Profile{
 	"c16q":   {Name: "c16q", Mutate: 30, MutateRows: 8, Rmw: 4, Cam: 4, Idle: 45, Read: 10, Gc: 3, Clock: 10, Modify: 4, MinOps: 8, MaxOps: 40, GcRules: true, Invalid: 15},
 	"c03big": {Name: "c03big", Mutate: 5, Read: 90, Keys: 5, RowSets: 70, Filters: 10, MinOps: 6, MaxOps: 14, Big: 450},
 	"c16w":   {Name: "c16w", Mutate: 10, Gcw: 50, Clock: 20, Read: 10, Keys: 10, ReadAfterWrite: true, MinOps: 4, MaxOps: 10, GcRules: true, Big: 260},
-	"c08":    {Name: "c08", Mutate: 25, MutateRows: 12, Cam: 4, Rmw: 6, Modify: 12, DropRange: 12, Create: 10, Delete: 8, Gc: 3, Clock: 3, MinOps: 8, MaxOps: 35, GcRules: true, Invalid: 5},
-	"c17": {Name: "c17", Mutate: 20, MutateRows: 12, Cam: 8, Rmw: 8, Read: 20, Keys: 3, Modify: 5, DropRange: 5, Create: 3, Delete: 2, List: 2, Get: 3, Gc: 4, Clock: 4, Rand: 2,
+	// ("t.v2": an id that extends another one by a dotted suffix — the files of one must not be taken for the other's)
+	"c08":    {Name: "c08", ExtraIDs: []string{"t.v2"}, Mutate: 25, MutateRows: 12, Cam: 4, Rmw: 6, Modify: 12, DropRange: 12, Create: 10, Delete: 8, Gc: 3, Clock: 3, MinOps: 8, MaxOps: 35, GcRules: true, Invalid: 5},
+	// (the extra id is table t's definition file name on disk: legal, and the engines must still agree — no restarts here, see finding K1)
+	"c17": {Name: "c17", ExtraIDs: []string{"t.table.proto"}, Mutate: 20, MutateRows: 12, Cam: 8, Rmw: 8, Read: 20, Keys: 3, Modify: 5, DropRange: 5, Create: 3, Delete: 2, List: 2, Get: 3, Gc: 4, Clock: 4, Rand: 2,
 		ReadAfterWrite: false, Filters: 50, RowSets: 50, Invalid: 10, MinOps: 10, MaxOps: 60, GcRules: true},
 }
 
 type Gen struct {
+	flushRow int // big table: number of the row whose chunks push a full scan's buffer over 1024 (0 = none)
 	R      *core.Rng
 	P      Profile
 	tables []string
@@ -78,7 +82,7 @@ type Gen struct {
 
 func (g *Gen) pickTable() string {
 	if len(g.tables) == 0 || g.R.Chance(1, 40) {
-		return TableName(core.Pick(g.R, Parents), core.Pick(g.R, IDs)) // possibly missing
+		return TableName(core.Pick(g.R, Parents), core.Pick(g.R, g.ids())) // possibly missing
 	}
 	return core.Pick(g.R, g.tables)
 }
@@ -176,6 +180,18 @@ func (g *Gen) Mut(valid bool) Mut {
 }
 
 func (g *Gen) Muts(maxN int) []Mut {
+	if maxN >= 3 && g.R.Chance(1, 12) {
+		// a sandwich: the same column written, wiped (row, family or column), written again — order matters,
+		// and whatever an implementation remembers about the row between mutations must not survive the wipe
+		f, q := core.Pick(g.R, Fams), core.Pick(g.R, Quals)
+		wipe := core.Pick(g.R, []Mut{{Kind: "delrow"}, {Kind: "delfam", Fam: f}, {Kind: "delcol", Fam: f, Qual: q}})
+		ms := []Mut{{Kind: "set", Fam: f, Qual: q, TS: core.Pick(g.R, GoodTS[:4]), Val: core.Pick(g.R, Values)}, wipe,
+			{Kind: "set", Fam: f, Qual: q, TS: core.Pick(g.R, GoodTS[:4]), Val: core.Pick(g.R, Values)}}
+		if g.R.Chance(g.P.Invalid, 100) {
+			ms = append(ms, g.Mut(false)) // … and the whole request refused after all
+		}
+		return ms
+	}
 	n := g.R.Intn(maxN + 1)
 	if n == 0 && g.R.Chance(3, 4) {
 		n = 1
@@ -192,6 +208,9 @@ func (g *Gen) Muts(maxN int) []Mut {
 }
 
 func (g *Gen) key() []byte { return core.Pick(g.R, Keys) }
+
+// ids: the table ids of the profile.
+func (g *Gen) ids() []string { return append(append([]string{}, IDs...), g.P.ExtraIDs...) }
 
 var reBytes = []byte{'a', 'b', 'f', 'g', 'v', 'w', 0, 0xff, '\n', '1'}
 
@@ -321,6 +340,22 @@ func (g *Gen) LeafFilter() *Filter {
 }
 
 func (g *Gen) FilterTree(depth int) *Filter {
+	if depth >= 2 && g.R.Chance(1, 10) {
+		// positional filters after a union: the union of an interleave keeps the row's column order (a branch
+		// that selects a later column must not move it in front of the columns another branch brings)
+		sel := core.Pick(g.R, []*Filter{
+			{Kind: "qualre", Rx: &Rx{Re: &Regex{Kind: "b", B: 'b'}}},
+			{Kind: "qualre", Rx: &Rx{Re: &Regex{Kind: "cat", X: &Regex{Kind: "b", B: 'a'}, Y: &Regex{Kind: "any"}}}},
+			{Kind: "colrange", Fam: g.fam(), SB: Bound{Kind: 'c', K: []byte("b")}, EB: Bound{Kind: 'u'}},
+			{Kind: "valre", Rx: &Rx{Re: &Regex{Kind: "b", B: 'w'}}},
+		})
+		inter := &Filter{Kind: "inter", Subs: []*Filter{sel, {Kind: "pass", Flag: true}}}
+		if g.R.Chance(1, 3) {
+			inter.Subs = []*Filter{sel, g.LeafFilter(), {Kind: "pass", Flag: true}}
+		}
+		pos := core.Pick(g.R, []*Filter{{Kind: "rowlim", N: 1}, {Kind: "rowlim", N: 2}, {Kind: "rowoff", N: 1}, {Kind: "collim", N: 1}})
+		return &Filter{Kind: "chain", Subs: []*Filter{inter, pos}}
+	}
 	if depth <= 0 || g.R.Chance(2, 5) {
 		return g.LeafFilter()
 	}
@@ -456,6 +491,8 @@ func (g *Gen) Program() []core.Op {
 			})
 		}
 		o := &Op{Kind: "mutaterows", Name: big}
+		bigCells := 0
+		g.flushRow = 0
 		for i := 0; i < g.P.Big; i++ {
 			k := []byte(fmt.Sprintf("r%04d", i))
 			var ms []Mut
@@ -473,6 +510,16 @@ func (g *Gen) Program() []core.Op {
 				ms = append(ms, Mut{Kind: "set", Fam: fam, Qual: core.Pick(g.R, Quals[:3]), TS: core.Pick(g.R, GoodTS[:4]), Val: core.Pick(g.R, Values[:4])})
 			}
 			o.Entries = append(o.Entries, Entry{Key: k, Muts: ms})
+			// the row that pushes the response buffer over its 1024 chunks: a limit that ends a scan exactly
+			// where a message ends is a case of its own
+			seen := map[string]bool{}
+			for _, m := range ms {
+				seen[fmt.Sprintf("%s/%x/%d", m.Fam, m.Qual, m.TS)] = true
+			}
+			bigCells += len(seen)
+			if g.flushRow == 0 && bigCells > 1024 {
+				g.flushRow = i + 1
+			}
 		}
 		prog = append(prog, o)
 	}
@@ -532,6 +579,9 @@ func (g *Gen) Program() []core.Op {
 				}
 				if g.R.Chance(1, 4) {
 					o.Limit = int64(core.Pick(g.R, []int{1, 100, 300, 449, 450, 451}))
+					if g.flushRow > 0 && g.R.Chance(1, 2) {
+						o.Limit = int64(g.flushRow + g.R.Intn(4) - 1)
+					}
 				}
 				prog = append(prog, o)
 			} else {
@@ -571,7 +621,7 @@ func (g *Gen) Program() []core.Op {
 			}
 			prog = append(prog, o)
 		case 8:
-			parent, id := core.Pick(g.R, Parents), core.Pick(g.R, IDs)
+			parent, id := core.Pick(g.R, Parents), core.Pick(g.R, g.ids())
 			o := &Op{Kind: "create", Parent: parent, ID: id}
 			for _, f := range Fams {
 				if g.R.Chance(4, 5) {
